@@ -726,6 +726,10 @@ func runNodeRestart(dir string, seed uint64, tier string) {
 							continue
 						}
 						steps := append(append([]nStep(nil), pre...), t)
+						if extra == "progress" && rolePull(role) == roleInitiator(role) {
+							// the transport walks the blocks it already holds again after a restart
+							steps = append(steps, sData(2, k, 10, 1, false))
+						}
 						// a follow-up input shows whether the transfer carries on
 						steps = append(steps, sK("tdisconnected", k))
 						s.run(fmt.Sprintf("restart role=%s status=%s extra=%s crash=%s", role, status, extra, crash), steps, nil)
